@@ -65,8 +65,10 @@ def ledger(w):
     refused = []
     for st in w.strategies:
         refused.append([[e[1], str(e[3])] for e in st.log])
+    # times the runner accounting recorded (cool-downs are measured from them): simulated time, like every other
+    contexts = sorted(getattr(w, "_ctx", []))
     cleared = [[cm.market_id, cm.profit, cm.bet_count, cm.commission] for e in w.recorder.events if type(e).__name__ == "ClearedMarketsEvent" for cm in e.event.orders]
-    return dict(orders=out, log=refused, cleared=cleared)
+    return dict(orders=out, log=refused, cleared=cleared, contexts=contexts)
 
 
 def kw(**o):
@@ -159,10 +161,22 @@ def sequential_three_markets():
     return simx.SimWorld(ms, [dict(script=script, kw=kw())])
 
 
+class Cap:
+    """records the runner accounting of every strategy when a market closes (it is released afterwards)"""
+
+    def closed(self, w, st, market, mb):
+        for k, rc in getattr(st, "_invested", {}).items():
+            if k[0] == market.market_id:
+                w._ctx.append([st.name, list(map(str, k)), str(rc.datetime_last_placed), str(rc.datetime_last_reset), rc.trade_count, rc.live_trade_count])
+
+
 def main():
     res = {}
     for name, f in SC.items():
         w = f()
+        w._ctx = []
+        if w.hooks is None:
+            w.hooks = Cap()
         w.run()
         if w.run_exception is not None:
             res[name] = "EXC " + repr(w.run_exception)
